@@ -61,7 +61,7 @@ def mutate_attr(rng, src):
     if not inner:
         return None
     k = rng.below(len(inner))
-    op = rng.below(7)
+    op = rng.below(8)
     junk = ["forward", "skip", "ignore", "owned", "ref", "ref_mut", "bound", "bounds", "source", "backtrace", "not", "repr", "types", "rename_all",
             "=", ",", "(", ")", "\"{}\"", "\"{0:?}\"", "\"{x}\"", "1", "u8", "T", "::", "<", ">", "'a", "!", "#", "r#type", "i32 i64", "()", "(,)", "[u8]"]
     if op == 0:
@@ -78,6 +78,14 @@ def mutate_attr(rng, src):
         if commas:
             c = rng.choice(commas)
             inner = inner[:c] + inner[c + 1:]
+        else:
+            inner = inner + [","]
+    elif op == 7:
+        # a trailing comma inside a nested list: `ref(i32,)`
+        closers = [i for i, t in enumerate(inner) if t == ")" and i > 0 and inner[i - 1] not in ("(", ",")]
+        if closers:
+            c = rng.choice(closers)
+            inner = inner[:c] + [","] + inner[c:]
         else:
             inner = inner + [","]
     elif op == 5:
@@ -190,6 +198,14 @@ def run(tier):
                   "struct R { r#type: u8, r#fn: u8 }", "enum R2 { r#type, r#fn(u8), r#match { r#type: u8 } }", "struct W where u8: Copy;",
                   "#[repr(u8)] enum D { A = 255, B }", "#[repr(i8)] enum D2 { A = -128, B = 127 }", "enum Big { A = 18446744073709551615 }",
                   "struct Deep(((((((((u8,),),),),),),),),));", "struct Fnp(fn(u8) -> u8, *const u8, &'static dyn Fn(u8), !);"]
+        for src in ["#[into(owned(u16, u32), ref(u8), ref_mut)] struct S(u8);", "#[into(ref(i32), ref, owned)] struct S(i32);",
+                    "struct S { #[into(owned(u64), ref)] a: u8, #[into(skip)] b: u8 }", "#[from(u8, u16)] #[from(forward)] struct S(u32);",
+                    "#[as_ref(u8, [u8])] struct S(Vec<u8>);", "#[try_into(owned, ref(x))] enum E { A(u8) }"]:
+            for _ in range(40 if tier == "quick" else 400):
+                m = mutate_attr(rng, src)
+                if m and m != src:
+                    d = "Into" if "into" in src else ("From" if "from" in src else ("AsRef" if "as_ref" in src else "TryInto"))
+                    lines.append(f"expand {d} {C.hexs(m)}"); meta.append((d, m, "mutated-attr"))
         for src in shapes:
             for d in derives:
                 lines.append(f"expand {d} {C.hexs(src)}"); meta.append((d, src, "kind"))
